@@ -24,7 +24,7 @@ type Entry struct {
 	Nsec int64  `json:"nsec,omitempty"`
 	Link string `json:"link,omitempty"`
 	Body string `json:"body,omitempty"`
-	Pad  int    `json:"pad,omitempty"` // extra body bytes (deterministic filler)
+	Pad  int    `json:"pad,omitempty"`  // extra body bytes (deterministic filler)
 	Zero int    `json:"zero,omitempty"` // zero bytes after that (a preallocated tail)
 }
 
@@ -56,11 +56,12 @@ type Scenario struct {
 	Umask        int       `json:"umask"`
 	Dst          string    `json:"dst"`
 	Allow        []string  `json:"allow,omitempty"`
-	FailFirst    bool      `json:"fail_first,omitempty"`    // archive 0 is an earlier call that is refused half-way; the destination is emptied afterwards
-	ConcPeer  bool    `json:"conc_peer,omitempty"`  // while each observed Unpack runs, another caller unpacks a small fixed archive into /w/peer-dst with the same Packer (interleaved at Read calls by the schedule tape)
-	SchedSeed uint64  `json:"sched_seed,omitempty"`
-	Tapes     [][]int `json:"tapes,omitempty"`
-	HaveTape  bool    `json:"have_tape,omitempty"`
+	DstMissing   bool      `json:"dst_missing,omitempty"` // the destination directory does not exist yet when the first call is made (its parent does)
+	FailFirst    bool      `json:"fail_first,omitempty"`  // archive 0 is an earlier call that is refused half-way; the destination is emptied afterwards
+	ConcPeer     bool      `json:"conc_peer,omitempty"`   // while each observed Unpack runs, another caller unpacks a small fixed archive into /w/peer-dst with the same Packer (interleaved at Read calls by the schedule tape)
+	SchedSeed    uint64    `json:"sched_seed,omitempty"`
+	Tapes        [][]int   `json:"tapes,omitempty"`
+	HaveTape     bool      `json:"have_tape,omitempty"`
 	SharedPacker bool      `json:"shared_packer,omitempty"` // one *Packer serves all Unpack calls of the scenario
 	Archives     []Archive `json:"archives"`
 }
